@@ -187,3 +187,62 @@ Example set_functions_example :
   cnt one [one; a; one; two; a; one] = 3%nat /\
   array_distinct_t (VArr [one; VNum (NInt 1)]) = VArr [one; VNum (NInt 1)].
 Proof. vm_compute. repeat split. Qed.
+
+(* ================================================================ intersection / except: WHICH occurrences are kept (L5) *)
+(* position by position, scanning the first list left to right: an element is kept by the intersection while unmatched copies
+   remain in the second list, i.e. iff fewer identical elements stand before it than the second list has copies -- the first
+   min(cnt a, cnt b) occurrences of each class; except keeps exactly the other positions.  Stated by counting only (no
+   reference to take_one / the shrinking multiset of the definition). *)
+Fixpoint quota_flags (b before l : list value) : list bool :=
+  match l with [] => [] | x :: r => (cnt x before <? cnt x b)%nat :: quota_flags b (before ++ [x]) r end.
+
+Lemma cnt_app_one y before x : cnt y (before ++ [x]) = (cnt y before + (if item_eqb y x then 1 else 0))%nat.
+Proof. unfold cnt. rewrite filter_app, app_length. cbn [filter]. destruct (item_eqb y x); reflexivity. Qed.
+
+Lemma inter_except_flags b l : forall m before, (forall y, cnt y m = (cnt y b - cnt y before)%nat) ->
+  inter_acc l m = select_flags (quota_flags b before l) l /\
+  except_acc l m = select_flags (map negb (quota_flags b before l)) l.
+Proof.
+  induction l as [|x r IH]; intros m before H; [split; reflexivity|]. cbn [inter_acc except_acc quota_flags map select_flags].
+  destruct (take_one x m) as [m'|] eqn:E.
+  - pose proof (take_one_some x m m' E) as T. pose proof (T x) as Tx. rewrite item_eqb_refl in Tx.
+    replace (cnt x before <? cnt x b)%nat with true by (symmetry; apply Nat.ltb_lt; rewrite (H x) in Tx; lia). cbn [negb].
+    destruct (IH m' (before ++ [x])) as [I1 I2].
+    { intros y. rewrite cnt_app_one. specialize (T y). rewrite (H y) in T. lia. }
+    rewrite I1, I2. split; reflexivity.
+  - pose proof (take_one_none x m E) as T.
+    replace (cnt x before <? cnt x b)%nat with false by (symmetry; apply Nat.ltb_ge; rewrite (H x) in T; lia). cbn [negb].
+    destruct (IH m (before ++ [x])) as [I1 I2].
+    { intros y. rewrite cnt_app_one. destruct (item_eqb y x) eqn:Eyx; [|rewrite (H y); lia].
+      rewrite (cnt_class y x m Eyx), T. rewrite (cnt_class y x b Eyx), (cnt_class y x before Eyx). rewrite (H x) in T. lia. }
+    rewrite I1, I2. split; reflexivity.
+Qed.
+Theorem intersection_except_occurrences a b :
+  items_of (array_intersection_t a b) = select_flags (quota_flags (items_of b) [] (items_of a)) (items_of a) /\
+  items_of (array_except_t a b) = select_flags (map negb (quota_flags (items_of b) [] (items_of a))) (items_of a).
+Proof. unfold array_intersection_t, array_except_t. cbn [items_of]. apply inter_except_flags. intros y. cbn. lia. Qed.
+(* the same, recursively (as for distinct): the head is kept iff the second list has a copy of it; the rest is then matched
+   against the second list minus ONE such copy (any list with one copy less gives the same answer) *)
+Theorem intersection_except_recursive x l m :
+  (forall m', (forall y, cnt y m = ((if item_eqb y x then 1 else 0) + cnt y m')%nat) ->
+     inter_acc (x :: l) m = x :: inter_acc l m' /\ except_acc (x :: l) m = except_acc l m') /\
+  (cnt x m = 0%nat -> inter_acc (x :: l) m = inter_acc l m /\ except_acc (x :: l) m = x :: except_acc l m).
+Proof.
+  split.
+  - intros m' H.
+    destruct (inter_except_flags m (x :: l) m [] ltac:(intros y; cbn; lia)) as [A1 A2].
+    destruct (inter_except_flags m l m' [x]) as [B1 B2].
+    { intros y. rewrite (H y). cbn [cnt filter]. unfold cnt. cbn [filter]. destruct (item_eqb y x); cbn [length]; lia. }
+    rewrite A1, A2, B1, B2. cbn [quota_flags map select_flags app].
+    pose proof (H x) as Hx. rewrite item_eqb_refl in Hx.
+    replace (cnt x [] <? cnt x m)%nat with true by (symmetry; apply Nat.ltb_lt; cbn; lia). cbn [negb]. split; reflexivity.
+  - intros H0. cbn [inter_acc except_acc]. destruct (take_one x m) as [m'|] eqn:E; [|split; reflexivity].
+    pose proof (take_one_some x m m' E x) as T. rewrite item_eqb_refl in T. lia.
+Qed.
+Example intersection_occurrences_example :
+  let a := [VNum (NUInt 1); VNum (NUInt 2); VNum (NUInt 1); VNum (NUInt 1)] in
+  let b := [VNum (NUInt 1); VNum (NUInt 3); VNum (NUInt 1)] in
+  quota_flags b [] a = [true; false; true; false] /\
+  items_of (array_intersection_t (VArr a) (VArr b)) = [VNum (NUInt 1); VNum (NUInt 1)] /\
+  items_of (array_except_t (VArr a) (VArr b)) = [VNum (NUInt 2); VNum (NUInt 1)].
+Proof. vm_compute. repeat split. Qed.
